@@ -100,7 +100,7 @@ func answer(r ring.ReadRing, q query, base time.Time) string {
 	return ""
 }
 
-var updateKinds = []string{"heartbeat", "heartbeat", "state", "tokens", "zone", "addr", "reg", "ro", "rots", "versions", "add", "remove", "same", "query", "query", "query"}
+var updateKinds = []string{"heartbeat", "heartbeat", "state", "tokens", "zone", "addr", "reg", "ro", "rots", "versions", "add", "remove", "swap", "swap", "same", "query", "query", "query"}
 
 func TestInstanceRingHistoryRapid(t *testing.T) {
 	rapid.Check(t, func(rt *rapid.T) {
@@ -242,6 +242,15 @@ func TestInstanceRingHistoryRapid(t *testing.T) {
 					if len(cur) > 1 {
 						delete(cur, pick)
 					}
+				case "swap":
+					// one notification carrying two changes (watchers deliver only the latest value): an instance
+					// has left and another one has joined, in another zone where there is one
+					delete(cur, pick)
+					if len(zones) > 1 && zones[next%len(zones)] == in.Zone {
+						next++
+					}
+					addInst(next, now)
+					next++
 				}
 				vx.Class("update_"+k, 1)
 				if k != "query" {
